@@ -85,7 +85,7 @@ def Sess.finalize (s : Sess) : Sess :=
   { s with w := { s.w with conns := s.w.conns ++ cs }, building := [] }
 
 def parseCb (s : String) : CbMode :=
-  if s == "count" then .count else if s == "raise" then .raise else .none
+  if s == "count" then .count else if s == "raise" || s == "raisebase" then .raise else .none
 
 def parseSrc (s : String) : Option LocalRef :=
   match s.splitOn ":" with
